@@ -6,7 +6,11 @@
      stride_members it= pat=[..] ext=[..] str=[..]
      map   lay=tstride it= pat=[..] ext=[..] ctor= str=[..] perm=[..]   (layout_transpose<layout_stride>; str = strides of the view)
      sub   it= pat=[..] ext=[..] sl=F,I,P,T,A,M<lo>,C<lo>_<hi> lo=[..] hi=[..]   (submdspan_extents; `keep=[0|1 ..]` = F/I only)
-     mda   lay=left|right|stride it= pat=[..] ext=[..] val= [str=[..] perm=[..]]    (mdarray constructors)
+     mda   lay=left|right|stride it= pat=[..] ext=[..] val= [str=[..] perm=[..]] [ext2=[..] [str2=[..] perm2=[..]]]
+           (mdarray constructors; with ext2: copy / move / assignment / swap between two objects with different mappings)
+     dflt  it= pat=[..] ext=[..]                            (default-constructed mappings; ext = static extent or 0)
+     seq   it= pat=[..] oit= opat=[..] olay=stride|left|right ext=[..] oext=[..] str=[..] [ostr=[..]]
+           (layout_stride::mapping::operator== across index types, both operand orders)
      msz   lay=left|right it= pat=[..] ext=[..]            (size / empty when only the SIZE is representable)
      span  n= se= op=first|last|subspan ct=0|1 off= cnt=
 -/
@@ -259,6 +263,59 @@ def specMdaFields (offs : List Nat) (want : Nat) (val : Int) (withExt : Bool) (r
             ++ one "ae" (z ARRN) ++ one "aev" (v ARRN) ++ one "aec" ca ++ (if rank > 0 then one "cp" (z want) else "")
         else "")
 
+/-! ### mdarray objects with different mappings (`ext2=` / `str2=` of an `mda` line): copy / move / assignment / swap -/
+
+/-- what an mdarray object reports: extents, strides, and len/sum/chk of its elements over the in-range multi-indices -/
+def descOf (exts strs : Except Err (List Int)) (ctr : List Int) (read : List Int → Except Err Int) : Except Err String := do
+  let e ← exts
+  let s ← strs
+  let idxs := (Spec.indices (natsOf e)).map intsOf
+  let reads ← idxs.mapM read
+  pure s!"e={fmtList e}/s={fmtList s}/r={rep ctr reads}"
+
+def descContig (l : Lay) (t : IdxT) (a : MdArr Ext) : Except Err String :=
+  let rank := a.map.pat.length
+  descOf ((List.range rank).mapM (a.map.extent t)) ((List.range rank).mapM (stride l t a.map)) a.ctr (a.read l t)
+
+def descStride (t : IdxT) (a : MdArr StrideMap) : Except Err String :=
+  let rank := a.map.ext.pat.length
+  descOf ((List.range rank).mapM (a.map.ext.extent t)) ((List.range rank).mapM a.map.stride) a.ctr (a.readStride t)
+
+/-- the containers of the two objects: element `k` is `500 + 3 k` resp. `100 + k` -/
+def ctrA (n : Nat) : List Int := (List.range n).map (fun k => ((500 + 3 * k : Nat) : Int))
+def ctrB (n : Nat) : List Int := (List.range n).map (fun k => ((100 + k : Nat) : Int))
+
+/-- the object fields of an `mda` line on the model: `x = mdarray(m1, c1)`, `y = mdarray(m2, c2)`; swap(x, y); z(x); w(move(y));
+    z = w; w = move(u) with u = mdarray(m2, c2); and swap of two objects with an `etl::array` container -/
+def modelObjFields {M : Type} (desc : MdArr M → Except Err String) (m1 m2 : M) (want1 want2 : Nat) : Except Err String := do
+  let c1 : List Int := ctrA want1
+  let c2 : List Int := ctrB want2
+  let x : MdArr M := { map := m1, ctr := c1 }
+  let y : MdArr M := { map := m2, ctr := c2 }
+  let (x, y) := MdArr.swap x y
+  let sw := s!"{← desc x}|{← desc y}"
+  let z := MdArr.copy x
+  let cc ← desc z
+  let w := MdArr.move y
+  let mc ← desc w
+  let z := MdArr.assign z w
+  let ca ← desc z
+  let u : MdArr M := { map := m2, ctr := c2 }
+  let w := MdArr.assign w (MdArr.move u)
+  let ma ← desc w
+  let ax : MdArr M := { map := m1, ctr := ctrA ARRN }
+  let ay : MdArr M := { map := m2, ctr := ctrB ARRN }
+  let (ax, ay) := MdArr.swap ax ay
+  pure s!" sw={sw} cc={cc} mc={mc} ca={ca} ma={ma} asw={← desc ax}|{← desc ay}"
+
+/-- spec: object A has extents `v1`, strides `s1`, elements 500 + 3 k; object B extents `v2`, strides `s2`, elements 100 + k -/
+def specObjFields (v1 s1 v2 s2 : List Nat) (off1 off2 : List Nat) (want1 want2 : Nat) : String :=
+  let d (v st : List Nat) (c : List Int) (offs : List Nat) : String :=
+    s!"e={fmtNatList v}/s={fmtNatList st}/r={rep c (offs.map (fun o => match c[o]? with | some x => x | none => -1))}"
+  let A := d v1 s1 (ctrA want1) off1
+  let B := d v2 s2 (ctrB want2) off2
+  s!" sw={B}|{A} cc={B} mc={A} ca={A} ma={B} asw={d v2 s2 (ctrB ARRN) off2}|{d v1 s1 (ctrA ARRN) off1}"
+
 /-- slice kinds of a `sub` line: F, I, P / T / A (run-time pairs), M<lo> (one static bound), C<lo>_<hi> (static pair) -/
 def parseSlices (names : List String) (lo hi : List Int) : Option (List Slice) :=
   (List.range names.length).mapM (fun k =>
@@ -423,23 +480,116 @@ def step (_ : Unit) (l : Line) : Unit × String :=
           let e ← Ext.ofVals t pat (intsOf vals)
           let req ← reqSpan ly t e
           let f ← modelMdaFields (mdarrayOfMapping ly t e) (mdarrayOfValue ly t e) (mdarrayRead ly t e) idxs req.toNat val true rank
-          pure s!"req={req}{f} misc=ok"
-        let offs := (Spec.indices vals).map (fun i => match ly with | .left => Spec.offLeft vals i | .right => Spec.offRight vals i)
-        out (fmtE m) s!"req={Spec.prod vals}{specMdaFields offs (Spec.prod vals) val true rank} misc=ok"
+          let g ← match l.natList? "ext2" with
+            | none => pure ""
+            | some vals2 => do
+              let e2 ← Ext.ofVals t pat (intsOf vals2)
+              let req2 ← reqSpan ly t e2
+              modelObjFields (descContig ly t) e e2 req.toNat req2.toNat
+          pure s!"req={req}{f} misc=ok{g}"
+        let offOf (v : List Nat) := (Spec.indices v).map (fun i => match ly with | .left => Spec.offLeft v i | .right => Spec.offRight v i)
+        let strOf (v : List Nat) := (List.range v.length).map (fun k => match ly with | .left => Spec.strideLeft v k | .right => Spec.strideRight v k)
+        let offs := offOf vals
+        let g := match l.natList? "ext2" with
+          | none => ""
+          | some vals2 => specObjFields vals (strOf vals) vals2 (strOf vals2) offs (offOf vals2) (Spec.prod vals) (Spec.prod vals2)
+        out (fmtE m) s!"req={Spec.prod vals}{specMdaFields offs (Spec.prod vals) val true rank} misc=ok{g}"
       | "stride" =>
         match l.natList? "str", l.natList? "perm" with
         | some str, some perm =>
           if !Spec.StrideOK vals str perm then out "pre(strides)" "pre(strides)" else
+          let second := match l.natList? "ext2", l.natList? "str2", l.natList? "perm2" with
+            | some v2, some s2, some p2 => some (v2, s2, p2)
+            | _, _, _ => none
+          if (match second with | some (v2, s2, p2) => !Spec.StrideOK v2 s2 p2 || v2.length != rank | none => false) then
+            out "pre(strides)" "pre(strides)" else
           let m : Except Err String := do
             let e ← Ext.ofVals t pat (intsOf vals)
             let sm ← StrideMap.mk' t e (intsOf str)
             let req ← sm.reqSpan t
             let f ← modelMdaFields (mdarrayOfMappingStride t sm) (mdarrayOfValueStride t sm) (mdarrayReadStride t sm) idxs req.toNat val false rank
-            pure s!"req={req}{f} misc=ok"
+            let g ← match second with
+              | none => pure ""
+              | some (v2, s2, _) => do
+                let e2 ← Ext.ofVals t pat (intsOf v2)
+                let sm2 ← StrideMap.mk' t e2 (intsOf s2)
+                let req2 ← sm2.reqSpan t
+                modelObjFields (descStride t) sm sm2 req.toNat req2.toNat
+            pure s!"req={req}{f} misc=ok{g}"
           let offs := (Spec.indices vals).map (fun i => Spec.offStride str i)
-          out (fmtE m) s!"req={Spec.reqSpanStride vals str}{specMdaFields offs (Spec.reqSpanStride vals str) val false rank} misc=ok"
+          let g := match second with
+            | none => ""
+            | some (v2, s2, _) =>
+              specObjFields vals str v2 s2 offs ((Spec.indices v2).map (fun i => Spec.offStride s2 i)) (Spec.reqSpanStride vals str)
+                (Spec.reqSpanStride v2 s2)
+          out (fmtE m) s!"req={Spec.reqSpanStride vals str}{specMdaFields offs (Spec.reqSpanStride vals str) val false rank} misc=ok{g}"
         | _, _ => bad
       | _ => bad
+    | _, _, _, _, _ => bad
+  | "dflt" =>
+    match (l.str? "it").bind parseIt, l.list? "pat", l.natList? "ext" with
+    | some t, some p, some vals =>
+      let pat := parsePat p
+      if pat.length ≠ vals.length then bad else
+      let rank := pat.length
+      let idxs := (Spec.indices vals).map intsOf
+      let one (exts strs : Except Err (List Int)) (req : Except Err Int) (at' : List Int → Except Err Int) : Except Err String := do
+        pure s!"e={fmtList (← exts)}/s={fmtList (← strs)}/req={← req}/off={fmtList (← idxs.mapM at')}"
+      let m : Except Err String := do
+        let e := contigDefault pat
+        let cl ← one ((List.range rank).mapM (e.extent t)) ((List.range rank).mapM (stride .left t e)) (reqSpan .left t e) (mapIdx .left t e)
+        let cr ← one ((List.range rank).mapM (e.extent t)) ((List.range rank).mapM (stride .right t e)) (reqSpan .right t e) (mapIdx .right t e)
+        let sm ← StrideMap.default t pat
+        let cs ← one ((List.range rank).mapM (sm.ext.extent t)) ((List.range rank).mapM sm.stride) (sm.reqSpan t) (sm.mapIdx t)
+        let exh ← sm.isExhaustive t
+        let eqr ← sm.eqMapping t t e (stride .right t e) (mapIdx .right t e)
+        let eql ← sm.eqMapping t t e (stride .left t e) (mapIdx .left t e)
+        pure s!"left:{cl} right:{cr} stride:{cs} exh={fmtB exh} eq={fmtB eqr}{fmtB eql} obj=ok"
+      let sl := (List.range rank).map (Spec.strideLeft vals)
+      let sr := (List.range rank).map (Spec.strideRight vals)
+      let sp (left : Bool) : String :=
+        let offs := (Spec.indices vals).map (fun i => if left then Spec.offLeft vals i else Spec.offRight vals i)
+        s!"e={fmtNatList vals}/s={fmtNatList (if left then sl else sr)}/req={Spec.prod vals}/off={fmtNatList offs}"
+      out (fmtE m) s!"left:{sp true} right:{sp false} stride:{sp false} exh=1 eq=1{fmtB (sl == sr)} obj=ok"
+    | _, _, _ => bad
+  | "seq" =>
+    match (l.str? "it").bind parseIt, l.list? "pat", (l.str? "oit").bind parseIt, l.list? "opat", l.str? "olay" with
+    | some t, some p, some ts, some op, some olay =>
+      match l.natList? "ext", l.natList? "oext", l.natList? "str" with
+      | some vals, some ovals, some str =>
+        let pat := parsePat p
+        let opat := parsePat op
+        let rank := pat.length
+        if opat.length ≠ rank || vals.length ≠ rank || ovals.length ≠ rank || str.length ≠ rank then bad else
+        let ostr? : Option (List Nat) :=
+          match olay with
+          | "stride" => l.natList? "ostr"
+          | "left" => some ((List.range rank).map (Spec.strideLeft ovals))
+          | "right" => some ((List.range rank).map (Spec.strideRight ovals))
+          | _ => none
+        match ostr? with
+        | none => bad
+        | some ostr =>
+        if ostr.length ≠ rank then bad else
+        let m : Except Err String := do
+          let e ← Ext.ofVals t pat (intsOf vals)
+          let sm ← StrideMap.mk' t e (intsOf str)
+          let oe ← Ext.ofVals ts opat (intsOf ovals)
+          match olay with
+          | "stride" => do
+            let o ← StrideMap.mk' ts oe (intsOf ostr)
+            let f ← sm.eqMapping t ts oe o.stride (o.mapIdx ts)
+            let b ← o.eqMapping ts t e sm.stride (sm.mapIdx t)
+            pure s!"eq={fmtB f}{fmtB b}{fmtB f}"
+          | _ => do
+            -- `o == m` with a layout_left / layout_right mapping `o` is the rewritten candidate `m == o` (C++20)
+            let ly : Lay := if olay == "left" then .left else .right
+            let f ← sm.eqMapping t ts oe (stride ly ts oe) (mapIdx ly ts oe)
+            pure s!"eq={fmtB f}{fmtB f}{fmtB f}"
+        -- [mdspan.layout.stride.obs]: extents equal and strides equal, as integers
+        let w := fmtB (vals == ovals && str == ostr)
+        out (fmtE m) s!"eq={w}{w}{w}"
+      | _, _, _ => bad
     | _, _, _, _, _ => bad
   | "msz" =>
     match (l.str? "it").bind parseIt, l.list? "pat", l.natList? "ext" with
